@@ -13,6 +13,7 @@ import (
 	"go/ast"
 	"go/token"
 	"go/types"
+	"golang.org/x/tools/go/cfg"
 )
 
 func init() {
@@ -69,7 +70,9 @@ func c02PrintConsultsUniseg(c *Ctx) {
 	}
 	info := fi.Pkg.TypesInfo
 	g := c.P.Graph(fi)
-	isRead := func(fn *types.Func, _ *ast.CallExpr) bool { return fn != nil && fullName(fn) == "bufio.Reader.ReadRune" }
+	isRead := func(fn *types.Func, _ *ast.CallExpr) bool {
+		return fn != nil && fullName(fn) == "bufio.Reader.ReadRune"
+	}
 	isUniseg := func(n ast.Node) bool {
 		call, ok := n.(*ast.CallExpr)
 		if !ok {
@@ -79,7 +82,9 @@ func c02PrintConsultsUniseg(c *Ctx) {
 		return fn != nil && fn.Pkg() != nil && fn.Pkg().Path() == "github.com/rivo/uniseg" && (fn.Name() == "FirstGraphemeClusterInString" || fn.Name() == "FirstGraphemeCluster" || fn.Name() == "StepString" || fn.Name() == "Step")
 	}
 	reads := g.Calls(isRead)
-	unreads := g.Calls(func(fn *types.Func, _ *ast.CallExpr) bool { return fn != nil && fullName(fn) == "bufio.Reader.UnreadRune" })
+	unreads := g.Calls(func(fn *types.Func, _ *ast.CallExpr) bool {
+		return fn != nil && fullName(fn) == "bufio.Reader.UnreadRune"
+	})
 	if len(reads) == 0 {
 		c.okTrivial("C02.g", fi.Name+"/no look-ahead", fi.Decl.Pos(), "print does not read ahead")
 		return
@@ -87,7 +92,7 @@ func c02PrintConsultsUniseg(c *Ctx) {
 	ok := true
 	for _, r := range reads {
 		for _, u := range unreads {
-			if g.ReachesAvoiding(r.Loc, u.Loc, isUniseg) && !c02InvalidByteKnown(g, info, u.Loc, r.Top) {
+			if g.ReachesAvoiding(r.Loc, u.Loc, isUniseg) && !c02InvalidByteKnown(g, info, u.Loc, r.Top) && c02ReachesUnjudged(g, info, r.Loc, u.Loc, isUniseg, r.Top) {
 				ok = false
 			}
 		}
@@ -223,4 +228,119 @@ func c02InvalidByteKnown(g *FG, info *types.Info, l Loc, asgNode ast.Node) bool 
 		collect(gd.Cond.Expr, gd.Pol)
 	}
 	return isFFFD && isOne
+}
+
+// c02ReachesUnjudged: some path from the read to the push-back passes neither a uniseg judgement nor branch edges that
+// together establish "the rune is the stand-in of an invalid byte" (first result == U+FFFD, second result == 1).
+// Path-sensitive counterpart of c02InvalidByteKnown for push-backs that sit at a join.
+func c02ReachesUnjudged(g *FG, info *types.Info, from, to Loc, isUniseg func(ast.Node) bool, asgNode ast.Node) bool {
+	asg, ok := asgNode.(*ast.AssignStmt)
+	if !ok || len(asg.Lhs) != 3 {
+		return true
+	}
+	obj := func(e ast.Expr) types.Object {
+		if id, ok := unparen(e).(*ast.Ident); ok && id.Name != "_" {
+			return info.ObjectOf(id)
+		}
+		return nil
+	}
+	r, sz := obj(asg.Lhs[0]), obj(asg.Lhs[1])
+	if r == nil || sz == nil {
+		return true
+	}
+	constIs := func(e ast.Expr, v int64) bool {
+		tv, ok := info.Types[e]
+		return ok && tv.Value != nil && tv.Value.String() == fmt.Sprint(v)
+	}
+	var collect func(e ast.Expr, pol bool, f *[2]bool)
+	collect = func(e ast.Expr, pol bool, f *[2]bool) {
+		e = unparen(e)
+		switch t := e.(type) {
+		case *ast.Ident:
+			if def := c02BoolDef(g, info, t); def != nil {
+				collect(def, pol, f)
+			}
+		case *ast.UnaryExpr:
+			if t.Op == token.NOT {
+				collect(t.X, !pol, f)
+			}
+		case *ast.BinaryExpr:
+			switch {
+			case t.Op == token.LAND && pol, t.Op == token.LOR && !pol:
+				collect(t.X, pol, f)
+				collect(t.Y, pol, f)
+			case t.Op == token.EQL && pol, t.Op == token.NEQ && !pol:
+				for _, pr := range [][2]ast.Expr{{t.X, t.Y}, {t.Y, t.X}} {
+					if o := obj(pr[0]); o != nil {
+						if o == r && constIs(pr[1], 0xFFFD) {
+							f[0] = true
+						}
+						if o == sz && constIs(pr[1], 1) {
+							f[1] = true
+						}
+					}
+				}
+			}
+		}
+	}
+	type st struct {
+		b    *cfg.Block
+		i    int
+		a, c bool
+	}
+	seen := map[st]bool{}
+	objs := map[types.Object]bool{r: true, sz: true}
+	found := false
+	var dfs func(s st)
+	dfs = func(s st) {
+		for !found {
+			if seen[s] {
+				return
+			}
+			seen[s] = true
+			if s.b == to.B && s.i == to.Idx {
+				found = true
+				return
+			}
+			if s.i < len(s.b.Nodes) {
+				n := s.b.Nodes[s.i]
+				hit := false
+				ast.Inspect(n, func(x ast.Node) bool {
+					if isUniseg(x) {
+						hit = true
+					}
+					return !hit
+				})
+				if hit {
+					return
+				}
+				if n != asgNode && assignsAny(info, n, objs) {
+					s.a, s.c = false, false
+				}
+				s.i++
+				continue
+			}
+			if cond := g.BranchCond(s.b); cond != nil && len(s.b.Succs) == 2 && cond.Alts == nil {
+				for k, pol := range []bool{true, false} {
+					f := [2]bool{s.a, s.c}
+					if cond.Tag != nil {
+						collect(&ast.BinaryExpr{X: cond.Tag, Op: token.EQL, Y: cond.Expr}, pol, &f)
+					} else {
+						collect(cond.Expr, pol, &f)
+					}
+					if f[0] && f[1] {
+						continue // on this edge the rune is known to stand for an invalid byte
+					}
+					dfs(st{s.b.Succs[k], 0, f[0], f[1]})
+				}
+				return
+			}
+			for _, sb := range s.b.Succs {
+				dfs(st{sb, 0, s.a, s.c})
+			}
+			return
+		}
+	}
+	dfs(st{from.B, from.Idx + 1, false, false})
+	return found
 }
